@@ -1888,7 +1888,7 @@ class Data(BaseCartesianData):
                 chunk_shape = subset_state.to_mask(self, chunk_view).shape
                 full_shape = [chunk_shape[idim] for idim in range(self.ndim) if idim not in axis]
 
-            full_result = np.zeros(full_shape) * np.nan
+            full_result = np.full(full_shape, np.nan)
             full_result[result_slices] = result
             return full_result
 
